@@ -1,6 +1,7 @@
 #!/usr/bin/env python3
-"""Structured merge of known_findings.json: union of `findings` by id (ours + theirs), `fixed` from ours.
-usage: merge_kf.py <their ref>"""
+"""Structured merge of known_findings.json when merging builder branch w-Cxx: entries of the properties that branch owns are
+taken from THEIR version (so that entries they removed disappear), all other entries and the `fixed` list from OURS.
+usage: merge_kf.py <their ref> [ours ref]"""
 import json, subprocess, sys
 def show(ref):
     s = subprocess.run(['git', '-C', '/verif', 'show', ref + ':known_findings.json'], capture_output=True, text=True).stdout
@@ -8,12 +9,15 @@ def show(ref):
         return json.loads(s)
     except Exception:
         return {'findings': []}
-ours, theirs = show('HEAD'), show(sys.argv[1])
-res = {'findings': list(ours.get('findings', [])), 'fixed': list(ours.get('fixed', []))}
-ids = {f['id'] for f in res['findings']}
-for f in theirs.get('findings', []):
-    if f['id'] not in ids:
-        res['findings'].append(f)
-    else:  # their version of an entry they own wins
-        res['findings'] = [f if g['id'] == f['id'] else g for g in res['findings']]
+their = sys.argv[1]
+ours_ref = sys.argv[2] if len(sys.argv) > 2 else 'HEAD'
+owned = {their.split('-')[-1]}
+if 'C03' in owned:
+    owned.add('C04')
+ours, theirs = show(ours_ref), show(their)
+if len(sys.argv) > 2 and sys.argv[2] == 'WORKTREE':
+    ours = json.load(open('/verif/known_findings.json'))
+res = {'findings': [f for f in ours.get('findings', []) if f.get('property') not in owned], 'fixed': list(ours.get('fixed', []))}
+res['findings'] += [f for f in theirs.get('findings', []) if f.get('property') in owned]
 json.dump(res, open('/verif/known_findings.json', 'w'), indent=1)
+print('known findings:', len(res['findings']), 'fixed:', len(res['fixed']))
